@@ -45,6 +45,7 @@ type Contract struct {
 	Getter   bool // pure getter: the result is a function of the receiver (and its ghost version)
 	LocalCalls bool // calls through function values only affect the objects passed to them
 	HavocHeap  bool // may change any program state, but ghost effect logs only as declared
+	Opaque     bool // callers under verification see only that the results are determined by the arguments (attribute function) and the preconditions; the postconditions are for lemmas, which export what callers need
 	Function   bool // deterministic function of its scalar arguments (same arguments, same results)
 }
 
@@ -104,6 +105,7 @@ type ContractSet struct {
 	Standins  []Standin
 	Locks     []LockDiscipline
 	Unopaque  []Unopaque
+	PureFns   map[string]bool // `purefn pkg.Type.Field`: a func-typed field holding pure functions (deterministic in their arguments, no effect)
 	KeyTypes  []string // struct types used as map keys: values are terms of an uninterpreted sort built by an injective constructor
 	Files     []string
 	Errors    []string
@@ -238,6 +240,8 @@ func (cs *ContractSet) loadContractText(path string, pkgPath string, text string
 					c.HavocHeap = true
 				case "function":
 					c.Function = true
+				case "opaque":
+					c.Opaque = true
 				case "select", "loop":
 					// fragment selector: select N case K | loop N body
 					if j+3 < len(rest)+0 && (rest[j+2] == "case") {
@@ -328,6 +332,16 @@ func (cs *ContractSet) loadContractText(path string, pkgPath string, text string
 			cs.ObjInvs[oi.Type] = append(cs.ObjInvs[oi.Type], oi)
 			cur = nil
 			lastText = &oi.Text
+			continue
+		case "purefn":
+			if len(fields) < 2 {
+				errf(i, "purefn pkg.Type.Field")
+				continue
+			}
+			if cs.PureFns == nil {
+				cs.PureFns = map[string]bool{}
+			}
+			cs.PureFns[fields[1]] = true
 			continue
 		case "keytype":
 			// keytype <qualified struct type>
